@@ -1,6 +1,6 @@
 (* C06: the canonical rendering of a value / field parses back to what it denotes (repaired parser). *)
 From Coq Require Import ZArith NArith List Bool Lia.
-From OG Require Import C06.Model C06.Proofs.
+From OG Require Import C06.Model C06.Proofs C06.ProofsDec.
 Import ListNotations.
 Open Scope Z_scope.
 
@@ -442,6 +442,163 @@ Qed.
 
 End Render.
 
+(* ------------------------------------------------------------------------------------------------ *)
+(* the whole line, tags included, no premises beyond validity *)
+
+Lemma transp_split : forall ch a r, transp ch a -> split_unesc ch false (a ++ ch :: r) = Some (a, r).
+Proof.
+  intros ch a r H. rewrite H. cbn [split_unesc]. rewrite N.eqb_refl. cbn [andb negb lift]. rewrite app_nil_r. reflexivity.
+Qed.
+Lemma transp_none : forall ch a, transp ch a -> split_unesc ch false a = None.
+Proof. intros ch a H. pose proof (H []) as E. rewrite app_nil_r in E. cbn in E. exact E. Qed.
+
+Definition tag_body (t : bytes * bytes) : bytes := escape_tag (fst t) ++ c_eq :: escape_tag (snd t).
+
+Lemma render_tag_body : forall t, render_tag t = c_comma :: tag_body t.
+Proof. reflexivity. Qed.
+
+Lemma transp_tag_body : forall ch t, (ch = c_comma \/ ch = c_sp) -> transp ch (tag_body t).
+Proof.
+  intros ch t Hch. unfold tag_body.
+  apply transp_app; [apply transp_escape_tag; destruct Hch; subst; reflexivity|].
+  change (c_eq :: escape_tag (snd t)) with ([c_eq] ++ escape_tag (snd t)).
+  apply transp_app; [apply transp_char; destruct Hch; subst; reflexivity|].
+  apply transp_escape_tag; destruct Hch; subst; reflexivity.
+Qed.
+
+Lemma transp_sp_tags : forall tags, transp c_sp (concat (map render_tag tags)).
+Proof.
+  induction tags as [|t r IH]; [apply transp_nil|].
+  cbn [map concat]. rewrite render_tag_body. change (c_comma :: tag_body t) with ([c_comma] ++ tag_body t).
+  apply transp_app; [|exact IH]. apply transp_app; [apply transp_char; reflexivity|].
+  apply transp_tag_body. right. reflexivity.
+Qed.
+
+Lemma split_all_unesc_tags : forall tags t fuel,
+  (List.length (tag_body t ++ concat (map render_tag tags)) <= fuel)%nat ->
+  split_all_unesc fuel c_comma (tag_body t ++ concat (map render_tag tags)) = tag_body t :: map tag_body tags.
+Proof.
+  induction tags as [|u r IH]; intros t fuel Hf.
+  - cbn [map concat]. rewrite app_nil_r. destruct fuel as [|f]; [reflexivity|].
+    cbn [split_all_unesc]. rewrite (transp_none c_comma (tag_body t)); [reflexivity|].
+    apply transp_tag_body. left. reflexivity.
+  - cbn [map concat] in *. rewrite render_tag_body in *.
+    change ((c_comma :: tag_body u) ++ concat (map render_tag r)) with (c_comma :: (tag_body u ++ concat (map render_tag r))) in *.
+    destruct fuel as [|f].
+    { rewrite app_length in Hf. cbn [List.length] in Hf. lia. }
+    cbn [split_all_unesc]. rewrite (transp_split c_comma (tag_body t)); [|apply transp_tag_body; left; reflexivity].
+    f_equal. apply IH. rewrite app_length in Hf. cbn [List.length] in Hf. lia.
+Qed.
+
+Definition valid_tag (t : bytes * bytes) : Prop :=
+  fst t <> [] /\ snd t <> [] /\ (List.length (fst t) <= max_key_len)%nat /\ Z.of_nat (List.length (snd t)) <= max_tagval_len.
+
+Lemma map_result_tags : forall tags, Forall valid_tag tags ->
+  map_result parse_tag (map tag_body tags) = Ok (map Some tags).
+Proof.
+  intros tags H. induction H as [|[k v] r [Hk [Hv [Hlk Hlv]]] Hr IH]; [reflexivity|].
+  cbn [map map_result]. unfold tag_body at 1. cbn [fst snd] in *.
+  rewrite (parse_tag_render k v Hk Hv Hlk Hlv). cbn [bind]. rewrite IH. reflexivity.
+Qed.
+
+Lemma somes_map_Some : forall (A : Type) (l : list A), somes (map Some l) = l.
+Proof. induction l as [|a r IH]; [reflexivity|]. cbn. now rewrite IH. Qed.
+
+Lemma mtags_render : forall name tags, Forall valid_tag tags ->
+  match split_unesc c_comma false (escape_tag name ++ concat (map render_tag tags)) with
+  | Some (m, tagstr) => bind (parse_tags tagstr) (fun tg => Ok (m, sort_tags tg))
+  | None => Ok (escape_tag name ++ concat (map render_tag tags), [])
+  end = Ok (escape_tag name, sort_tags tags).
+Proof.
+  intros name [|t r] H.
+  - cbn [map concat]. rewrite app_nil_r. rewrite (split_unesc_escape_tag_none c_comma name eq_refl eq_refl). reflexivity.
+  - cbn [map concat]. rewrite render_tag_body.
+    change ((c_comma :: tag_body t) ++ concat (map render_tag r)) with (c_comma :: (tag_body t ++ concat (map render_tag r))).
+    rewrite (split_unesc_escape_tag c_comma name _ eq_refl eq_refl).
+    unfold parse_tags. rewrite split_all_unesc_tags by apply le_n.
+    change (tag_body t :: map tag_body r) with (map tag_body (t :: r)).
+    rewrite (map_result_tags (t :: r) H). cbn [bind]. rewrite somes_map_Some. reflexivity.
+Qed.
+
+Section RenderFull.
+Variable dec2f : bytes -> f64.
+
+Definition valid_pval (v : pval) : Prop :=
+  match v with
+  | PInt n => in_int64 n = true
+  | PFloat lit => valid_number lit = true /\ f64_is_finite (dec2f lit) = true
+  | PBool _ => True
+  | PStr _ => True
+  end.
+
+Lemma digit_or_minus_plain : forall ch c, numch ch = false -> (is_digit c = true \/ c = ch_minus) ->
+  (c =? ch)%N = false /\ (c =? c_bs)%N = false /\ (c =? c_quote)%N = false.
+Proof.
+  intros ch c Hch Hc. apply numch_plain; [exact Hch|]. unfold numch. destruct Hc as [Hc| ->]; [rewrite Hc|]; reflexivity.
+Qed.
+
+Lemma valid_pval_val : forall v, valid_pval v -> valid_val dec2f v.
+Proof.
+  intros [n|lit|b|s] H; cbn [valid_pval valid_val] in *; auto.
+  split; [apply parse_int64_render_int; exact H|].
+  split; (eapply Forall_impl; [|apply render_int_chars]); intros c Hc; apply digit_or_minus_plain; auto.
+Qed.
+
+Definition valid_pfield (kv : bytes * pval) : Prop := valid_key (fst kv) /\ no_quote (fst kv) /\ valid_pval (snd kv).
+
+(* a point the line protocol can carry *)
+Definition valid (p : point) : Prop :=
+  valid_name (p_name p) /\ Forall valid_tag (p_tags p) /\ p_fields p <> [] /\ Forall valid_pfield (p_fields p) /\
+  0 <= p_ts p <= max_int64.
+
+(* what is stored for it: the same measurement, the tags sorted by key, every field with the value it denotes, the
+   timestamp *)
+Definition store (p : point) : row :=
+  {| r_name := p_name p; r_tags := sort_tags (p_tags p); r_fields := map (store_field dec2f) (p_fields p); r_ts := Some (p_ts p) |}.
+
+Theorem parse_render : forall p, valid p -> parse_line dec2f cfg_repaired (render p) = Ok (store p).
+Proof.
+  intros [name tags fs ts] [[Hn [Hlen Hfirst]] [Htags [Hne [Hfs0 Hts]]]]. cbn [p_name p_tags p_fields p_ts] in *.
+  assert (Hfs : Forall (valid_field dec2f) fs).
+  { eapply Forall_impl; [|exact Hfs0]. intros kv [H1 [H2 H3]]. split; [exact H1|]. split; [exact H2|].
+    apply valid_pval_val. exact H3. }
+  unfold render, store. cbn [p_name p_tags p_fields p_ts].
+  set (T := concat (map render_tag tags)). set (F := join_fields (map render_field fs)).
+  destruct (escape_tag_head name Hn) as [h [t [Eh [_ Hlead]]]].
+  unfold parse_line.
+  assert (Hd : drop_while is_lead_ws (escape_tag name ++ T ++ c_sp :: F ++ c_sp :: render_nat ts) =
+               escape_tag name ++ T ++ c_sp :: F ++ c_sp :: render_nat ts).
+  { rewrite Eh. cbn [app]. apply drop_while_head. apply Hlead. exact Hfirst. }
+  rewrite Hd. rewrite app_assoc.
+  rewrite (transp_split c_sp (escape_tag name ++ T)).
+  2:{ apply transp_app; [apply transp_escape_tag; reflexivity | apply transp_sp_tags]. }
+  assert (HF : exists fh ft, F = fh :: ft /\ is_sp fh = false).
+  { unfold F. destruct fs as [|[k v] r]; [congruence|].
+    inversion Hfs as [|x y [[Hk _] _] _]; subst.
+    destruct (escape_tag_head k Hk) as [kh [kt [Ek [Hsp _]]]].
+    cbn [map]. unfold render_field at 1. cbn [fst snd]. rewrite Ek.
+    destruct (map render_field r); cbn [join_fields app]; eexists; eexists; split; try reflexivity; exact Hsp. }
+  destruct HF as [fh [ft [EF Hfh]]].
+  assert (Hd2 : drop_while is_sp (F ++ c_sp :: render_nat ts) = F ++ c_sp :: render_nat ts).
+  { rewrite EF. cbn [app]. apply drop_while_head. exact Hfh. }
+  rewrite Hd2. unfold T.
+  match goal with |- bind ?X _ = _ =>
+    replace X with (@Ok (bytes * list (bytes * bytes)) (escape_tag name, sort_tags tags))
+      by (symmetry; apply mtags_render; exact Htags) end.
+  cbn [bind fst snd].
+  rewrite unescape_escape_tag.
+  assert (Hl : Nat.ltb max_name_len (List.length name) = false) by (apply Nat.ltb_ge; exact Hlen).
+  rewrite Hl.
+  assert (HT : transq c_sp F).
+  { unfold F. apply transq_join; [reflexivity|]. apply Forall_map. eapply Forall_impl; [|exact Hfs].
+    intros [k v] [_ [Hq Hv]]. apply (transq_render_field dec2f); [right; reflexivity | exact Hq | exact Hv]. }
+  rewrite (HT (c_sp :: render_nat ts)). cbn [split_unq]. rewrite N.eqb_refl. cbn [andb negb lift]. rewrite app_nil_r.
+  unfold F. rewrite (parse_fields_render dec2f fs Hne Hfs). cbn [bind].
+  rewrite parse_ts_drop_sp, (parse_ts_render_nat ts Hts). reflexivity.
+Qed.
+
+End RenderFull.
+
 (* the hypothesis about the third-party decimal -> binary64 conversion, and what it buys *)
 Section Dec2fCorrect.
 Variable dec2f : bytes -> f64.
@@ -454,5 +611,22 @@ Proof.
   intros lit Hv Hf.
   pose proof (parse_value_render dec2f (PFloat lit)) as H. cbn [valid_val render_val store_val] in H.
   rewrite (dec2f_correct lit Hv) in H. apply H. split; assumption.
+Qed.
+
+Lemma store_fields_exact : forall fs, Forall (valid_pfield dec2f) fs ->
+  map (store_field dec2f) fs = map (store_field dec2f_exact) fs.
+Proof.
+  intros fs H. induction H as [|[k v] r [_ [_ Hv]] Hr IH]; [reflexivity|].
+  cbn [map]. rewrite IH. f_equal. unfold store_field. cbn [fst snd]. f_equal.
+  destruct v as [n|lit|b|s]; cbn [store_val]; try reflexivity.
+  destruct Hv as [Hv _]. rewrite (dec2f_correct lit Hv). reflexivity.
+Qed.
+
+(* parse of render with the stored floats spelled out as the correctly rounded values *)
+Theorem parse_render_exact : forall p, valid dec2f p ->
+  parse_line dec2f cfg_repaired (render p) = Ok (store dec2f_exact p).
+Proof.
+  intros p H. rewrite (parse_render dec2f p H). unfold store. f_equal. f_equal.
+  destruct H as [_ [_ [_ [Hf _]]]]. apply store_fields_exact. exact Hf.
 Qed.
 End Dec2fCorrect.
